@@ -177,6 +177,31 @@ func (w *World) doUIModify(t *Task) {
 	c := w.Contacts[t.Contact]
 	sa := w.currentSA()
 	w.setClock()
+	// ticketing is the host's own business (agents reassign, move and close tickets in the UI): the row changes
+	// without any goflow code running, and the next resume carries the changed contact
+	if tk, _ := c.Replica["ticket"].(gen.J); tk != nil && w.T.Chance("ticket_op", 1, 4) {
+		sc := w.Sc
+		switch op := w.T.Pick("ticket_op_kind", 3); {
+		case op == 0 && len(sc.Users) > 0:
+			if tk["assignee"] == nil {
+				u := sc.Users[w.T.Pick("ticket_user", len(sc.Users))]
+				tk["assignee"] = gen.J{"email": u.Email, "name": u.Name}
+			} else {
+				delete(tk, "assignee")
+			}
+			w.fault("ticket_reassigned_in_ui")
+		case op == 1 && len(sc.Topics) > 1:
+			tp := sc.Topics[w.T.Pick("ticket_topic", len(sc.Topics))]
+			tk["topic"] = gen.J{"uuid": tp.UUID, "name": tp.Name}
+			w.fault("ticket_moved_in_ui")
+		default:
+			delete(c.Replica, "ticket")
+			w.fault("ticket_closed_in_ui")
+		}
+		c.dirty = true
+		w.logf("ticket operation in the UI: ticket now %v", c.Replica["ticket"])
+		return
+	}
 	mj := w.genModifierJSON()
 	mc := w.ApplyModifierTwice(c, mj, sa)
 	if mc == nil {
